@@ -54,6 +54,49 @@ def pool(ctx):
     return P
 
 
+def bools_next_to_ints(ctx):
+    """a bool and the int it equals inside one value (lists and dictionaries only, so that the leaves are the only hashable sub-values):
+    DeepHash replaces a bool by its own marker object before it consults its table, so -- unlike 1 and 1.0 -- True and 1 never share an entry,
+    whichever is hashed first, and NoNumAlias need not exclude them"""
+    P = [[1, True], [1], [1, 1], [True, 1], [True], [True, True], [[1], [True]], [[1]], [[1], [1]], [[True], [1]], {'a': [1, True]}, {'a': [1]}, {'a': [1, 1]},
+         [0, False], [0], [0, 0], [False, 0], [False], {1: [True]}, {1: [1]}, {'k': 1, 'j': [True]}, {'k': 1, 'j': [1]}, [1, [True]], [1, [1]], [1, 'a', True], [1, 'a', 1], [1, 'a'],
+         [{'a': 1}, {'a': True}], [{'a': 1}, {'a': 1}], [{'a': 1}], [2, 1, True], [2, 1], [2, 1, 1], [0, 1, False, True], [0, 1], [0, 1, 0, 1]]
+    g = Gen(ctx.rng, scalars=[1, True, 0, False, 2, 'a'], keys=['a', 'b', 1], kinds=('dict', 'list'), max_depth=3, max_width=4, p_leaf=0.5)
+    def swap(v):
+        if isinstance(v, bool):
+            return int(v)
+        if type(v) is int and v in (0, 1) and ctx.rng.random() < 0.5:
+            return bool(v)
+        if isinstance(v, list):
+            return [swap(x) for x in v]
+        if isinstance(v, dict):
+            return {k: swap(x) for k, x in v.items()}
+        return v
+    for _ in range(60 if ctx.thorough() else 15):
+        v = g.container()
+        P.append(v); P.append(swap(v))
+    for mname in CLAIMED:
+        rep, order = HS.MODES[mname]
+        kw = dict(ignore_repetition=rep, ignore_iterable_order=order)
+        hs = []
+        for v in P:
+            try:
+                hs.append(HS.deephash(v, **kw)[0])
+            except Exception as e:
+                hs.append('raised ' + type(e).__name__ + repr(v))
+        for i, j in itertools.combinations(range(len(P)), 2):
+            a, b = P[i], P[j]
+            ctx.evaluations += 1
+            if mname == 'ordered' and HS.canon(a, 'ordered') != HS.canon(b, 'ordered') and HS.canon(a, 'ordered_f7') == HS.canon(b, 'ordered_f7'):
+                ctx.count('out_of_domain:F7_pattern'); continue
+            eq = HS.canon(a, mname) == HS.canon(b, mname)
+            if not eq:
+                ctx.nontriv((repr(a), repr(b), mname, 'bools'))
+            ctx.count('pairs_bool_int:' + mname)
+            if hs[i] == hs[j] and not eq:
+                ctx.violate({'a': repr(a), 'b': repr(b), 'mode': mname}, 'same hash although the values are not equivalent under the %s mode (a bool next to the int it equals)' % mname)
+
+
 def shared_table(ctx):
     """different content hashed into one long-lived table (temporaries that are freed, a container edited between calls) still gets
     different digests: an entry written for an object that no longer exists, or that has changed, must not answer for another value"""
@@ -157,6 +200,7 @@ def run(ctx, impl_only=False):
             if eq and not same:
                 ctx.count('equivalent_but_different_hash')      # the other direction belongs to C06; recorded, not judged here
         ctx.sample({'mode': mname, 'pool_size': len(P)})
+    bools_next_to_ints(ctx)
     shared_table(ctx)
     instants(ctx)
     # ---- boundary witnesses
